@@ -462,10 +462,21 @@ func c35SpecHash(sp c35FormSpec) uint64 {
 
 // c35Conn is a minimal scripted connection (vnet.Conn copies every byte into its event log, too heavy for 16 MiB bodies).
 type c35Conn struct {
-	chunks [][]byte
-	out    bytes.Buffer
-	closed bool
+	chunks   [][]byte
+	out      bytes.Buffer
+	closed   bool
+	consumed int
+	errAt    int // input offset at which every further Read fails with errVal (-1: never)
+	errVal   error
 }
+
+type c35TimeoutErr struct{}
+
+func (c35TimeoutErr) Error() string   { return "read: i/o timeout" }
+func (c35TimeoutErr) Timeout() bool   { return true }
+func (c35TimeoutErr) Temporary() bool { return true }
+
+var c35ErrReset = errors.New("read: connection reset by peer")
 
 func (c *c35Conn) Read(p []byte) (int, error) {
 	if c.closed {
@@ -474,11 +485,20 @@ func (c *c35Conn) Read(p []byte) (int, error) {
 	for len(c.chunks) > 0 && len(c.chunks[0]) == 0 {
 		c.chunks = c.chunks[1:]
 	}
+	if c.errAt >= 0 {
+		if c.consumed >= c.errAt {
+			return 0, c.errVal
+		}
+		if len(p) > c.errAt-c.consumed {
+			p = p[:c.errAt-c.consumed]
+		}
+	}
 	if len(c.chunks) == 0 {
 		return 0, io.EOF
 	}
 	n := copy(p, c.chunks[0])
 	c.chunks[0] = c.chunks[0][n:]
+	c.consumed += n
 	return n, nil
 }
 func (c *c35Conn) Write(p []byte) (int, error) {
@@ -499,23 +519,40 @@ type c35Elem struct {
 	Kind    string // get, small, 9k, big, 9k-broken, big-broken, over-limit
 	Handler string // none, parse, limit, parse-close, formvalue
 	Big     bool
+	// bytes after the closing delimiter that still belong to the Content-Length framed body
+	Epilogue int
+	// the connection fails (read error, not EOF) inside: "value" part, "file" part (behind the spill threshold), "epilogue"
+	ErrIn        string
+	ErrTimeout   bool // the error is a timeout (net.Error) instead of a reset
+	ThoroughOnly bool
 }
 
 var c35Elems = []c35Elem{
-	{"get", "get", "none", false},
-	{"mp-small/none", "small", "none", false},
-	{"mp-small/parse", "small", "parse", false},
-	{"mp-9k/none", "9k", "none", false},
-	{"mp-9k/parse", "9k", "parse", false},
-	{"mp-9k/limit-exceeded", "9k", "limit", false},
-	{"mp-9k/formvalue", "9k", "formvalue", false},
-	{"mp-9k/parse+close", "9k", "parse-close", false},
-	{"mp-9k-broken/parse", "9k-broken", "parse", false},
-	{"mp-over-body-limit/parse", "over-limit", "parse", false},
-	{"mp-big/none", "big", "none", true},
-	{"mp-big/parse+close", "big", "parse-close", true},
-	{"mp-big-broken/none", "big-broken", "none", true},
-	{"mp-big/parse", "big", "parse", true},
+	{Name: "get", Kind: "get", Handler: "none", Big: false},
+	{Name: "mp-small/none", Kind: "small", Handler: "none", Big: false},
+	{Name: "mp-small/parse", Kind: "small", Handler: "parse", Big: false},
+	{Name: "mp-9k/none", Kind: "9k", Handler: "none", Big: false},
+	{Name: "mp-9k/parse", Kind: "9k", Handler: "parse", Big: false},
+	{Name: "mp-9k/limit-exceeded", Kind: "9k", Handler: "limit", Big: false},
+	{Name: "mp-9k/formvalue", Kind: "9k", Handler: "formvalue", Big: false},
+	{Name: "mp-9k/parse+close", Kind: "9k", Handler: "parse-close", Big: false},
+	{Name: "mp-9k-broken/parse", Kind: "9k-broken", Handler: "parse", Big: false},
+	{Name: "mp-over-body-limit/parse", Kind: "over-limit", Handler: "parse", Big: false},
+	{Name: "mp-big/none", Kind: "big", Handler: "none", Big: true},
+	{Name: "mp-big/parse+close", Kind: "big", Handler: "parse-close", Big: true},
+	{Name: "mp-big-broken/none", Kind: "big-broken", Handler: "none", Big: true},
+	{Name: "mp-big/parse", Kind: "big", Handler: "parse", Big: true, ThoroughOnly: true},
+	// (appended later: indices above are used by recorded artefacts)
+	{Name: "mp-9k-epilogue/parse", Kind: "9k", Handler: "parse", Epilogue: 100},
+	{Name: "mp-9k-reset-in-value/parse", Kind: "9k", Handler: "parse", Epilogue: 100, ErrIn: "value"},
+	{Name: "mp-9k-reset-in-file/parse", Kind: "9k", Handler: "parse", Epilogue: 100, ErrIn: "file"},
+	{Name: "mp-9k-reset-in-epilogue/parse", Kind: "9k", Handler: "parse", Epilogue: 100, ErrIn: "epilogue"},
+	{Name: "mp-9k-timeout-in-epilogue/parse", Kind: "9k", Handler: "parse", Epilogue: 100, ErrIn: "epilogue", ErrTimeout: true},
+	{Name: "mp-big-reset-in-value/none", Kind: "big", Handler: "none", Big: true, Epilogue: 100, ErrIn: "value"},
+	{Name: "mp-big-reset-in-file/none", Kind: "big", Handler: "none", Big: true, Epilogue: 100, ErrIn: "file"},
+	{Name: "mp-big-reset-in-epilogue/none", Kind: "big", Handler: "none", Big: true, Epilogue: 100, ErrIn: "epilogue"},
+	{Name: "mp-big-timeout-in-epilogue/none", Kind: "big", Handler: "none", Big: true, Epilogue: 100, ErrIn: "epilogue", ErrTimeout: true},
+	{Name: "mp-big-epilogue/none", Kind: "big", Handler: "none", Big: true, Epilogue: 100, ThoroughOnly: true},
 }
 
 type c35Cfg struct {
@@ -531,10 +568,11 @@ type c35Hist struct {
 
 const c35MaxBody = 40 << 20
 
-func c35ElemWire(idx int, e c35Elem) [][]byte {
+// c35ElemWire returns the bytes of the request and the offset inside them at which the connection fails (-1: never).
+func c35ElemWire(idx int, e c35Elem) ([][]byte, int) {
 	path := fmt.Sprintf("/%d/%s", idx, e.Handler)
 	if e.Kind == "get" {
-		return [][]byte{[]byte("GET " + path + " HTTP/1.1\r\nHost: h\r\n\r\n")}
+		return [][]byte{[]byte("GET " + path + " HTTP/1.1\r\nHost: h\r\n\r\n")}, -1
 	}
 	pre := "--" + c35Boundary + "\r\nContent-Disposition: form-data; name=\"a\"\r\n\r\nv\r\n" +
 		"--" + c35Boundary + "\r\nContent-Disposition: form-data; name=\"file\"; filename=\"f.bin\"\r\nContent-Type: application/octet-stream\r\n\r\n"
@@ -549,13 +587,26 @@ func c35ElemWire(idx int, e c35Elem) [][]byte {
 	if strings.HasSuffix(e.Kind, "-broken") {
 		tail = "\r\n--" + "X0undary" + "--\r\n" // the closing delimiter never comes: the body ends inside the file part
 	}
+	if e.ErrIn == "file" {
+		size += 64 * 1024 // so that the failure hits after the part was spilled to disk (pre-parse) / after 8 KiB (stream)
+	}
 	content := c35Content(7, size)
-	cl := len(pre) + size + len(tail)
+	epilogue := strings.Repeat("e", e.Epilogue)
+	cl := len(pre) + size + len(tail) + len(epilogue)
 	if e.Kind == "over-limit" {
 		cl = c35MaxBody + 1
 	}
 	head := fmt.Sprintf("POST %s HTTP/1.1\r\nHost: h\r\nContent-Type: multipart/form-data; boundary=%s\r\nContent-Length: %d\r\n\r\n", path, c35Boundary, cl)
-	return [][]byte{[]byte(head + pre), content, []byte(tail)}
+	errAt := -1
+	switch e.ErrIn {
+	case "value":
+		errAt = len(head) + 60 // inside the first part ("a"), before the file part starts
+	case "file":
+		errAt = len(head) + len(pre) + size - 32*1024
+	case "epilogue":
+		errAt = len(head) + len(pre) + size + len(tail) + e.Epilogue/2
+	}
+	return [][]byte{[]byte(head + pre), content, []byte(tail + epilogue)}, errAt
 }
 
 type c35Obs struct {
@@ -646,9 +697,21 @@ func c35RunHist(r *vrt.R, s *Server, dir string, h c35Hist) int {
 	}
 	st := &c35RunState{dir: dir}
 	c35Cur = st
-	c := &c35Conn{}
+	c := &c35Conn{errAt: -1}
+	off := 0
 	for i, e := range h.Elems {
-		c.chunks = append(c.chunks, c35ElemWire(i+1, c35Elems[e])...)
+		chunks, errAt := c35ElemWire(i+1, c35Elems[e])
+		if errAt >= 0 && c.errAt < 0 {
+			c.errAt = off + errAt
+			c.errVal = c35ErrReset
+			if c35Elems[e].ErrTimeout {
+				c.errVal = c35TimeoutErr{}
+			}
+		}
+		for _, ch := range chunks {
+			off += len(ch)
+		}
+		c.chunks = append(c.chunks, chunks...)
 	}
 	s.ServeConn(c)
 	st.obs = append(st.obs, c35Obs{len(h.Elems) + 1, "after-close", c35List(dir)})
@@ -676,7 +739,22 @@ func c35RunHist(r *vrt.R, s *Server, dir string, h c35Hist) int {
 				first[f] = origin{o.req, o.phase}
 				if o.phase == "after-close" {
 					// created and never observed before: still a leftover of some request of this connection
-					r.Violation("tempfile-left-after-connection-close:created-by-request-that-was-never-dispatched",
+					why := "created-by-request-that-was-never-dispatched"
+					nd := 0
+					for _, o2 := range st.obs {
+						if o2.phase == "dispatch" {
+							nd++
+						}
+					}
+					if nd < len(h.Elems) {
+						switch el := c35Elems[h.Elems[nd]]; {
+						case el.ErrIn != "":
+							why = "request-failed-with-read-error-in-" + el.ErrIn
+						case strings.HasSuffix(el.Kind, "-broken"):
+							why = "request-failed-with-parse-error"
+						}
+					}
+					r.Violation("tempfile-left-after-connection-close:"+why,
 						fmt.Sprintf("file %s exists after the connection was closed — %s", f, h.Text), h)
 				}
 				if o.phase == "dispatch" {
@@ -767,7 +845,7 @@ func c35Explore(r *vrt.R, s *Server, dir string, h c35Hist, maxLen, maxBig int, 
 		d := c35RunHist(r, s, dir, h2)
 		*cnt++
 		el := c35Elems[e]
-		closes := el.Handler == "parse-close" || d < len(h2.Elems)
+		closes := el.Handler == "parse-close" || el.ErrIn != "" || d < len(h2.Elems)
 		if !closes && len(h2.Elems) < maxLen {
 			c35Explore(r, s, dir, h2, maxLen, maxBig, alphabet, bigCtx, cnt)
 		}
@@ -784,7 +862,7 @@ func TestVerif_C35(t *testing.T) {
 	if os.TempDir() != dir {
 		r.ToolError("os.TempDir()=%q does not follow TMPDIR=%q", os.TempDir(), dir)
 	}
-	c35BigBuf = make([]byte, c35Big+1)
+	c35BigBuf = make([]byte, c35Big+128*1024)
 	pat := []byte("0123456789abcdef\r\n--B0undarz\r\n\n--B0undary\n--")
 	for i := range c35BigBuf {
 		c35BigBuf[i] = pat[i%len(pat)]
@@ -816,7 +894,7 @@ func TestVerif_C35(t *testing.T) {
 	maxBig := vrt.Pick(r, 1, 3)
 	r.Rule(fmt.Sprintf("(a) every form of the <=%d-deviation product over {0-2 value fields: names %q/%q, values (7, incl. CRLF, quotes, non-ASCII, delimiter look-alikes that are legitimate content, 9.9 KB); 0-2 files: field names %q/%q, file names %q, sizes %v; source files in memory/on disk} "+
 		"plus single-file forms of 16MiB-1/16MiB/16MiB+1 bytes, written with WriteMultipartForm and read back through %v; oracle: parsed values, file names and file contents == written. "+
-		"(b) every history of <=%d requests (extended while the connection stays open; <=%d requests with a 16 MiB+1 file per history; in the quick tier such a history takes its other requests from {get, mp-9k/parse}) over %d request/handler symbols x {pre-parse on/off} x {StreamRequestBody on/off} through Server.ServeConn with a private TMPDIR; "+
+		"(b) every history of <=%d requests (extended while the connection stays open; <=%d requests with a 16 MiB+1 file per history; in the quick tier such a history takes its other requests from {get, mp-9k/parse}) over %d request/handler symbols x {pre-parse on/off} x {StreamRequestBody on/off} through Server.ServeConn with a private TMPDIR; the symbols include bodies with an epilogue behind the closing delimiter and connections that fail (reset / timeout, not EOF) inside a value part, inside the file part behind the spill threshold, and inside the epilogue; "+
 		"oracle: no temp file seen during request j exists at the dispatch or handler exit of a later request or after the connection was closed. non-trivial: non-empty forms; histories in which a temp file was actually observed",
 		maxDev, c35Names1, c35Names2, c35FFields1, c35FFields2, c35FNames, c35Sizes, c35Paths, maxLen, maxBig, len(c35Elems)))
 	r.Assume("mime/multipart (writer for the seed files, FileHeader.Open) is the reference for what a file part contains; value fields with an empty name are outside the enumeration (the standard reader skips parts without a name)",
@@ -832,7 +910,7 @@ func TestVerif_C35(t *testing.T) {
 				if e.Big && !cfg.PreParse {
 					continue // without pre-parse a 16 MiB file adds nothing over the 9 KB one (the threshold there is 8 KiB / none)
 				}
-				if e.Name == "mp-big/parse" && !r.Thorough() {
+				if e.ThoroughOnly && !r.Thorough() {
 					continue
 				}
 				alphabet = append(alphabet, i)
